@@ -132,6 +132,33 @@ example : accepted 1 (init exCase) exSteps = 1 ∧ exSteps.countP (isDispatchOp 
 example : cTerm 1 ((init exCase).runSteps exSteps).env.log = 1 := by decide
 example : cj 2 (((init exCase).runSteps exSteps).env.actors.flatMap Actor.heldJobs) = 1 := by decide
 
+/-! ### Finding F4 on its concrete witness: "at most one job per worker death" is FALSE of the code
+
+`corpus/C13/e-lts-f4_stale_completion_loses_two_jobs.ops` with the instants of the real run
+(the model replays it exactly: DIFF = 0 on every run). The stale `Finished(0, 7)` of the dead
+incarnation is applied to the replacement's job 2; the factory hands it job 3 early; killing the
+replacement loses jobs 2 and 3 with ONE death. Conservation still holds (both are `lost`). -/
+def f4Case : CaseCfg :=
+  { cfg := { router := .q, prioQueue := false, hasHandler := true, table := [], hasCC := true }, n := 1, disc := none, rl := none }
+def f4Info : Info := { router := .q, prioQueue := false, hasHandler := true, n := 1, disc := none, rl := none }
+def f4Steps : List Step :=
+  [⟨.nop, 0, 2000000, 3000000⟩,
+   ⟨.dispatch 1 7 7364705619221056123 none false, 3000000, 4000000, 5000000⟩,
+   ⟨.dispatch 2 7 7364705619221056123 none false, 5000000, 6000000, 7000000⟩,
+   ⟨.dispatch 3 7 7364705619221056123 none false, 7000000, 8000000, 9000000⟩,
+   ⟨.block, 9000000, 101000000, 101000000⟩,
+   ⟨.finish 0 true, 101000000, 102000000, 102000000⟩,
+   ⟨.kill 0, 102000000, 103000000, 103000000⟩,
+   ⟨.release 1, 103000000, 104000000, 105000000⟩,
+   ⟨.kill 1, 105000000, 106000000, 107000000⟩,
+   ⟨.nop, 107000000, 108000000, 109000000⟩]
+/-- jobs lost with actor `aid` -/
+def lostWith (w : W) (aid : Nat) : List Nat := w.env.log.filterMap fun | .lost a id => if a == aid then some id else none | _ => none
+example : lostWith ((init f4Case).runSteps f4Steps) 1 = [2, 3] := by decide +kernel
+example : C13.fateOk f4Info ((init f4Case).runSteps f4Steps).env.log = false := by decide +kernel
+example : noStaleCompletion f4Info ((init f4Case).runSteps f4Steps).env.log = false := by decide +kernel
+example : total 3 ((init f4Case).runSteps f4Steps) = 1 := by decide +kernel
+
 end C13
 
 #print axioms C13.reject_log
